@@ -7,7 +7,7 @@ from asyncssh.misc import ProtocolError
 from asyncssh.packet import SSHPacket, UInt32, String
 
 from vf.core import Ob, R, B
-from vf.rt import Fuel, assume, pick, conc
+from vf.rt import Fuel, assume, pick, conc, notrace
 from props.chanlib import mkchan, split_sent, RecSession
 
 ASSUMPTIONS = [
@@ -272,12 +272,67 @@ def stream_pause(window: int, n1: int, n2: int, rd: int) -> bool:
     return ch.paused == (left >= window) and 0 < got <= rd
 
 
+HL = [(0, 0), (1, 0), (1, 1), (3, 0), (3, 1), (2, 2)]
+
+
+def write_pause(hl: int, n1: int, n2: int, w: int, a1: int, a2: int) -> bool:
+    n1, n2, w, a1, a2 = conc(n1, 0, 3), conc(n2, 0, 3), conc(w, 0, 3), conc(a1, 0, 4), conc(a2, 0, 6)
+    high, low = HL[hl]
+    with notrace():
+        return _write_pause(high, low, n1, n2, w, a1, a2)
+
+
+def _write_pause(high, low, n1, n2, w, a1, a2):
+    """Write-side back-pressure: with write buffer limits (high, low) the
+    session is told to pause exactly when the unsent data exceeds high and to
+    resume as soon as it has drained to low or below (so with low = 0: when it
+    is empty) - pause/resume alternate, and a paused writer is always resumed
+    once the window has let the data out."""
+    sess = RecSession()
+    chan, conn, loop = mkchan(window=64, pktsize=64, fuel=60, session=sess)
+    chan._send_window = w
+    chan._send_pktsize = 64
+    chan.set_write_buffer_limits(high, low)
+    events = []
+    paused = False
+
+    def step(buffered):
+        nonlocal paused
+        if paused and buffered <= low:
+            paused = False
+            events.append('resume_w')
+        elif not paused and buffered > high:
+            paused = True
+            events.append('pause_w')
+
+    sent = min(w, n1)
+    chan.write(DATA[:n1])
+    step(n1 - sent)
+    avail = w - sent
+    s2 = min(avail, n2)
+    chan.write(DATA[:n2])
+    step(n1 - sent + n2 - s2)
+    left = n1 - sent + n2 - s2
+    for adj in (a1, a2):
+        chan._process_window_adjust(93, 0, SSHPacket(UInt32(adj)))
+        out = min(left, adj) if left else 0
+        left -= out
+        step(left)
+    got = [e[0] for e in sess.log if e[0] in ('pause_w', 'resume_w')]
+    return got == events and chan._send_buf_len == left
+
+
 OBLIGATIONS = [
     Ob('adjust_after_eof', send_window,
        sym=dict(window=R(0, 3), pktsize=R(1, 2), adj=R(0, 4), rstate=R(1, 2)),
        shards=dict(n1=[3], n2=[0, 2], fin=[0, 1, 2]), fixed=dict(stderr2=False), timeout=150,
        functions=[CH.SSHChannel._process_window_adjust, CH.SSHChannel._flush_send_buf],
        bounds='same harness as send_window with the receive side in state eof_pending / eof (peer already sent EOF) when the WINDOW_ADJUST arrives: window 0..3, packet size 1..2, adjust 0..4'),
+    Ob('write_pause', write_pause,
+       sym=dict(n1=R(0, 3), n2=R(0, 3), w=R(0, 3), a1=R(0, 4), a2=R(0, 6)),
+       shards=dict(hl=[0, 1, 2, 3, 4, 5]), timeout=300,
+       functions=[CH.SSHChannel._pause_resume_writing, CH.SSHChannel.set_write_buffer_limits, CH.SSHChannel.write, CH.SSHChannel._flush_send_buf],
+       bounds='write buffer limits (high, low) in {(0,0),(1,0),(1,1),(3,0),(3,1),(2,2)}, two writes of 0..3 bytes against a window of 0..3, two adjusts (0..4, 0..6)'),
     Ob('send_window', send_window,
        sym=dict(window=R(0, 5), pktsize=R(1, 4), n1=R(0, 3), n2=R(0, 3), adj=R(0, 4), stderr2=B, fin=R(0, 2)),
        shards=dict(n1=[0, 2, 3, 5], n2=[0, 2], fin=[0, 1, 2]),
